@@ -12,3 +12,4 @@ impl<T> SimpleMarkerAllocator<T> {
     }
 }
 pub open spec fn max64(a: u64, b: u64) -> u64 { if a >= b { a } else { b } }
+
